@@ -240,7 +240,7 @@ End P.
 
 (* ---------------- the hypotheses are satisfiable ---------------- *)
 (* rationals, constant basis functions (all derivatives vanish): a degenerate but
-   genuine model; see also ExDual below for one with non-zero derivatives *)
+   genuine model; ExDual below has non-zero derivatives *)
 Section ExConst.
 Local Open Scope Qc_scope.
 Definition exK : Fops Qc := QcK 0 (fun x => x) (fun x => x) (fun x => x) (fun _ x => x).
@@ -266,3 +266,52 @@ Proof.
   - intros a b. now rewrite Nat.add_comm.
 Qed.
 End ExConst.
+
+(* A model with non-vanishing derivatives of every order: dual numbers a + b.eps (eps^2 = 0) over Qc
+   with the derivations D_k (a + b.eps) = c_k b.eps; phi^o_a = [o=0] + c^o s_a eps
+   (first-order germ of 1 + s_a (exp(c.r) - 1) eps). *)
+Section ExDual.
+Local Open Scope Qc_scope.
+Definition dual := (Qc * Qc)%type.
+Definition d_add (x y : dual) : dual := (fst x + fst y, snd x + snd y).
+Definition d_mul (x y : dual) : dual := (fst x * fst y, fst x * snd y + snd x * fst y).
+Definition d_opp (x : dual) : dual := (- fst x, - snd x).
+Definition d_sub (x y : dual) : dual := d_add x (d_opp y).
+Definition dualK : Fops dual :=
+  mkFops dual (0, 0) (1, 0) d_add d_mul d_sub d_opp (fun x _ => x) (fun x => x)
+         (fun _ _ => true) (fun _ _ => true) (0, 0) (fun x => x) (fun x => x) (fun x => x) (fun _ x => x).
+Lemma dualKr : is_ring dualK.
+Proof.
+  constructor; cbn [dualK f0 f1 fadd fmul fsub fopp]; unfold d_sub, d_add, d_mul, d_opp;
+    intros; repeat match goal with x : dual |- _ => destruct x end; cbn [fst snd];
+    try reflexivity; apply (f_equal2 pair); ring.
+Qed.
+Definition cdir (k : axis) : Qc := match k with AX => Q2Qc (1 # 2) | AY => Q2Qc (2 # 1) | AZ => Q2Qc (-3 # 1) end.
+Definition cpow (o : order) : Qc :=
+  let '(a, b, c) := o in Qcpower (cdir AX) a * Qcpower (cdir AY) b * Qcpower (cdir AZ) c.
+Definition dualM : dmodel dualK :=
+  mkdmodel dual dualK (fun q => (q, 0)) (Q2Qc (1 # 3), 0) (Q2Qc (2 # 1), 0)
+           (fun k x => (0, cdir k * snd x)) 2%nat
+           (fun a b => (Q2Qc (Z.of_nat (a + b) # 1), 0))
+           (fun o a => ((if oeqb o o0 then 1 else 0), cpow o * Q2Qc (Z.of_nat (S a) # 1))).
+Lemma dualM_ok : dmodel_ok dualK dualM.
+Proof.
+  constructor; cbn [dualM dualK m_inj m_alpha m_beta m_D m_nb m_P m_phi f0 f1 fadd fmul];
+    unfold d_add, d_mul; cbn [fst snd].
+  - split; [reflexivity|]. split; intros; cbn [dualK fadd fmul]; unfold d_add, d_mul; cbn [fst snd];
+      apply (f_equal2 pair); ring.
+  - intros. apply (f_equal2 pair); ring.
+  - intros. apply (f_equal2 pair); ring.
+  - intros. apply (f_equal2 pair); ring.
+  - intros. apply (f_equal2 pair); ring.
+  - intros. apply (f_equal2 pair); ring.
+  - intros. apply (f_equal2 pair); ring.
+  - intros k [[a b] c] i. apply (f_equal2 pair).
+    + destruct k; cbn [osucc oeqb o0 Nat.eqb andb]; rewrite ?andb_false_r; reflexivity.
+    + destruct k; cbn [osucc cpow cdir Qcpower]; ring.
+  - intros a b. now rewrite Nat.add_comm.
+Qed.
+(* the derivations are not trivial in this model *)
+Lemma dualM_nontrivial : m_D dualM AX (m_phi dualM o0 0%nat) <> f0 dualK.
+Proof. cbn. intro H. inversion H. Qed.
+End ExDual.
